@@ -248,7 +248,7 @@ func buildOverlap(params json.RawMessage) explore.Scenario {
 					}
 				}
 			})
-			vs.WaitUntil("halt-release", func() bool { return vs.Step() >= p.HaltAt })
+			vs.WaitStep("halt-release", p.HaltAt)
 			_, _ = e.Halt(ctx)
 			out2, err := e.Analyze(ctx, searchctl.Options{DepthLimit: lang.Some(uint(1))})
 			if err != nil {
